@@ -40,7 +40,7 @@ def layers(tier):
 
 
 def floors(tier):
-    return {"match_pairs": 300000, "match_true_expected": 20000, "flatten_lookups": 3000,
+    return {"match_pairs": 300000, "match_true_expected": 20000, "flatten_lookups": 3000, "value_matrix_cells": 900,
             "ruleset_evals": 2000, "ruleset_matched": 500, "_distinct_nontrivial": 50000}
 
 
@@ -266,11 +266,10 @@ def rand_condition(rng, users):
         return {"kind": k, "is": rng.choice(["", "==", "<", ">", "<=", ">="]) + str(rng.choice([0, 1, 2, 3, 10]))}
     if k == "sender_notification_permission":
         return {"kind": k, "key": rng.choice(["room", "room", "other"])}
-    if k == "event_property_is":
-        return {"kind": k, "key": rng.choice(["content.n", "content.b", "content.body", "content.k\\.x"]),
-                "value": rng.choice([1, 2, True, False, None, "foo", "v", "1"])}
-    return {"kind": k, "key": rng.choice(["content.arr", "content.m\\.mentions.user_ids"]),
-            "value": rng.choice([1, "x", "@me:x.org", None, True])}
+    # both value conditions are asked about every shape of property (scalar, array, empty / non-empty object)
+    keys = ["content.n", "content.b", "content.body", "content.k\\.x", "content.arr", "content.m\\.mentions.user_ids",
+            "content.obj", "content.m\\.mentions", "content.missing"]
+    return {"kind": k, "key": rng.choice(keys), "value": rng.choice([1, 2, True, False, None, "foo", "v", "1", "x", "@me:x.org", 0, ""])}
 
 
 def rulesets(ctx, layer):
@@ -315,7 +314,8 @@ def rulesets(ctx, layer):
         if rng.random() < 0.4:
             content["n"] = rng.choice([1, 2, "1"])
             content["b"] = rng.choice([True, False, None])
-            content["arr"] = rng.choice([[1, "x"], [], ["@me:x.org", None]])
+            content["arr"] = rng.choice([[1, "x"], [], ["@me:x.org", None], [None], [True, 0, ""]])
+            content["obj"] = rng.choice([{}, {"a": 1}, [], None, 0])
             content["k.x"] = "v"
         room = rng.choice(rooms)
         ev = {"type": rng.choice(["m.room.message", "m.room.member"]), "sender": sender,
@@ -362,8 +362,49 @@ def rulesets(ctx, layer):
         rep.sample({"push_eval": {k: cmds[0][k] for k in ("ruleset", "event", "ctx")}})
 
 
+VALUE_MATRIX_COND = [None, True, False, 0, 1, -1, "1", "", "x", "true", "null"]
+VALUE_MATRIX_PROP = ["absent", None, True, False, 0, 1, -1, "1", "", "x", "true", "null", [], [None], [1, "x"], [True, False],
+                     ["1"], [[]], {}, {"a": 1}, [{}], 9007199254740991]
+
+
+def value_matrix(ctx, layer):
+    """exact-value conditions: every condition value x every shape of property, exhaustively"""
+    rep = ctx.rep
+    w = ctx.worker(layer)
+    cmds, meta = [], []
+    k = 0
+    for kind in ("event_property_is", "event_property_contains"):
+        for cv in VALUE_MATRIX_COND:
+            for pv in VALUE_MATRIX_PROP:
+                for key in ("content.p", "content.q\\.r"):
+                    k += 1
+                    if not ctx.mine(k):
+                        continue
+                    content = {"body": "b"}
+                    if not (isinstance(pv, str) and pv == "absent"):
+                        content["p" if key == "content.p" else "q.r"] = pv
+                    ev = {"type": "m.room.message", "sender": "@a:x.org", "room_id": "!r:x.org", "event_id": "$e", "content": content}
+                    cond = {"kind": kind, "key": key, "value": cv}
+                    c = {"room_id": "!r:x.org", "user_id": "@me:x.org", "user_display_name": "me", "member_count": 2, "power_levels": None}
+                    cmds.append({"op": "condition_applies", "condition": json.dumps(cond), "event": json.dumps(ev), "ctx": c})
+                    meta.append((cond, ev, c))
+    for cmd, (cond, ev, c), r in zip(cmds, meta, w.call_many(cmds)):
+        if handle_crash(rep, r, cmd, context="condition_applies"):
+            continue
+        if "ok" not in r:
+            raise RuntimeError("probe error %r for %r" % (r, cmd))
+        rep.judged()
+        rep.count("value_matrix_cells")
+        want = ref.condition(cond, ref.flatten(ev), c, True)
+        if r["ok"] != want:
+            rep.violation("value_condition_differs", "%s:%s:%s" % (cond["kind"], json.dumps(cond["value"]), json.dumps(ev["content"])),
+                          {"condition": cond, "event": ev, "want": want, "got": r["ok"]}, cmd)
+        rep.case(h64("vm", cmd["condition"], cmd["event"]))
+
+
 def shard(ctx):
     for layer in layers(ctx.tier):
         matcher_core(ctx, layer)
         flattening(ctx, layer)
+        value_matrix(ctx, layer)
         rulesets(ctx, layer)
